@@ -272,7 +272,54 @@ def sod_replay(chk, scalar):
             path = chk.save_replay(ob, dict(obligation=ob.name, library=str(got53), reference=str(r53), scenario='Gamma:=5/3; evaluate; mu:=1/4; evaluate', stdout=out[-500:]), src)
             return dict(reproduced=True, path=path, detail='sod_1d<%s>: after Gamma:=5/3, one evaluation, mu:=1/4 the density at (0,1) is %s, exact solution for the current parameters %s' % (
                 scalar, mp.nstr(got53, 15), mp.nstr(r53, 15)))
-        return dict(reproduced=False, path=None, detail='real library returns the converged state for the current parameters')
+        # (3) the whole wave structure at the default Gamma: both evaluators against the exact Riemann solution on a grid of x/t
+        #     (every region, both sides of every front; points closer than 2e-3 to a front are skipped)
+        g = mp.mpf('1.4')
+        mu2 = (g - 1) / (g + 1)
+        pl, pr, rl, rr = mp.mpf(1), mp.mpf('0.125'), mp.mpf(1), mp.mpf('0.125')
+        cl = mp.sqrt(g * pl / rl)
+        pm = pm14
+        rhoml = rl * (pm / pl) ** (1 / g)
+        vm = 2 * cl / (g - 1) * (1 - (pm / pl) ** ((g - 1) / (2 * g)))
+        rhomr = rr * (pm + mu2 * pr) / (pr + mu2 * pm)
+        vs = vm / (1 - rr / rhomr)
+        tail = vm / (1 - mu2) - cl
+        fronts = [-cl, tail, vm, vs]
+
+        def exact_state(xi):
+            if xi < -cl:
+                return rl, mp.mpf(0)
+            if xi < tail:
+                u = (1 - mu2) * (xi + cl)
+                return rl * (1 - (g - 1) / 2 * u / cl) ** (2 / (g - 1)), u
+            if xi < vm:
+                return rhoml, vm
+            if xi < vs:
+                return rhomr, vm
+            return rr, mp.mpf(0)
+        pts = []
+        for t_ in ('0.5', '1', '2'):
+            for k in range(91):
+                xi = mp.mpf(-2) + mp.mpf(k) / 20
+                if any(abs(xi - f_) < mp.mpf('2e-3') for f_ in fronts):
+                    continue
+                pts.append((xi * mp.mpf(t_), mp.mpf(t_), xi))
+        body = ['masa_init<Scalar>("w","sod_1d");']
+        for i, (x_, t_, xi) in enumerate(pts):
+            body.append('printf("R r%d %%.25Lg\\nR m%d %%.25Lg\\n",(long double)masa_eval_source_rho<Scalar>((Scalar)%sL,(Scalar)%sL),(long double)masa_eval_source_rho_u<Scalar>((Scalar)%sL,(Scalar)%sL));'
+                        % (i, i, mp.nstr(x_, 25), mp.nstr(t_, 25), mp.nstr(x_, 25), mp.nstr(t_, 25)))
+        src3 = '#include <masa.h>\n#include <cstdio>\nusing namespace MASA;\ntypedef %s Scalar;\nint main(){\n%s\n return 0;}\n' % (cxx, '\n'.join(body))
+        rc3, out3, _ = chk.lib().run(src3)
+        res3 = rp.parse_results(out3)
+        for i, (x_, t_, xi) in enumerate(pts):
+            er, eu = exact_state(xi)
+            gr, gm = res3.get('r%d' % i), res3.get('m%d' % i)
+            if gr is None or gm is None or abs(gr - er) > mp.mpf('1e-9') or abs(gm - er * eu) > mp.mpf('1e-9'):
+                path = chk.save_replay(ob, dict(obligation=ob.name, x=str(x_), t=str(t_), library_rho=str(gr), library_rho_u=str(gm), exact_rho=str(er), exact_rho_u=str(er * eu),
+                                               fronts=[str(f_) for f_ in fronts]), src3)
+                return dict(reproduced=True, path=path, detail='sod_1d<%s> at x/t=%s (t=%s): library rho=%s rho_u=%s, exact Riemann solution rho=%s rho_u=%s' % (
+                    scalar, mp.nstr(xi, 6), mp.nstr(t_, 3), mp.nstr(gr, 12) if gr is not None else None, mp.nstr(gm, 12) if gm is not None else None, mp.nstr(er, 12), mp.nstr(er * eu, 12)))
+        return dict(reproduced=False, path=None, detail='real library returns the converged state for the current parameters and the exact wave structure on the x/t grid')
     return replay
 
 
@@ -445,6 +492,8 @@ def body(chk):
     for scalar in ('double', 'long double'):
         sod_bisection(chk, w, scalar)
         sod_relations(chk, w, scalar, gammas)
+    import c09
+    c09.add_type_purity(chk, ['sod_1d', 'cp_normal'])
     chk.solve_all()
 
 
